@@ -1248,6 +1248,12 @@ func (c *Ctx) staleElementStores(fn *ssa.Function) (checked int, bad []ssa.Instr
 		if _, isSlice := ia.X.Type().Underlying().(*types.Slice); !isSlice {
 			return
 		}
+		// (a helper that is handed the slice and updates its elements by
+		// index: the header it indexes is the one its caller just loaded)
+		if q, isP := ia.X.(*ssa.Parameter); isP && q.Parent() != fn {
+			checked++
+			return
+		}
 		ld, ok := ia.X.(*ssa.UnOp)
 		if !ok || ld.Op != token.MUL {
 			return
